@@ -2,7 +2,7 @@
    Proofs_top.v and followed by Print Assumptions; Examples show that the hypotheses are satisfiable and
    give the concrete witnesses for what the code as it is does NOT satisfy. *)
 From Coq Require Import List NArith Bool Ascii Arith Lia.
-From V Require Import C19.Model C19.Proofs_pad C19.Proofs_merkle C19.Proofs_prop C19.Proofs_top.
+From V Require Import C19.Model C19.Proofs_pad C19.Proofs_merkle C19.Proofs_prop C19.Proofs_top C19.Proofs_wire.
 Import ListNotations.
 
 
@@ -280,4 +280,37 @@ Lemma nonce_copy_needed :
          (unit0 (fun s => proto_shards [s]) true 7) 2) = VOk /\
   snd (validate term term_eq_dec TL TN sigt sigt_eq_dec t_sig_ok proto_shards sc4 (v_init sigt 2)
          (unit0 (fun s => proto_shards [s]) false 0) 2) = VOk.
+Proof. vm_compute. repeat split; reflexivity. Qed.
+
+(* ---------- the wire: UnitFromProto (session 3) ---------- *)
+(* "A unit whose shard data, proof, index ... does not match is rejected and cannot cause ... the receiver to
+   fail": whatever protobuf message arrives, decoding it either refuses it or yields a unit with at least one
+   shard, shards of one length, a 32-byte root and 32-byte siblings - never a run-time panic. *)
+Theorem C19_wire_never_fails : forall w, from_proto w <> WPanic /\ wire_wf (from_proto w) = true.
+Proof. intro w. split; [exact (from_proto_never_panics w)|exact (from_proto_wf w)]. Qed.
+Print Assumptions C19_wire_never_fails.
+
+Theorem C19_wire_accepts_only_wellformed : forall w sh root sib,
+  from_proto w = WOk sh root sib ->
+  sh = w_shards w /\ root = w_root w /\ sh <> [] /\
+  (forall s, In s sh -> length s = length (hd [] sh)) /\ length root = 32 /\
+  (forall s, In s sib -> length s = 32).
+Proof. exact from_proto_accepts_wellformed. Qed.
+Print Assumptions C19_wire_accepts_only_wellformed.
+
+Theorem C19_wire_accepts_every_wellformed : forall w s0 rest,
+  w_shards w = s0 :: rest -> (forall s, In s rest -> length s = length s0) -> length (w_root w) = 32 ->
+  from_proto w = WOk (w_shards w) (w_root w) (map into32 (w_siblings w)).
+Proof. exact from_proto_complete. Qed.
+Print Assumptions C19_wire_accepts_every_wellformed.
+
+(* the decoder before the repair (registered finding, fixed): an empty shard list or a root that is not 32 bytes
+   long made the stream handler panic, and a LAST shard of another length was let through *)
+Example C19_wire_before_fix_refuted :
+  from_proto_before_fix (mkWire [] (repeat zero_byte 32) []) = WPanic /\
+  from_proto_before_fix (mkWire [[B 1]] [B 1; B 2] []) = WPanic /\
+  wire_wf (from_proto_before_fix (mkWire [[B 1]; [B 1]; [B 1; B 2; B 3]] (repeat zero_byte 32) [])) = false /\
+  from_proto (mkWire [] (repeat zero_byte 32) []) = WErr /\
+  from_proto (mkWire [[B 1]] [B 1; B 2] []) = WErr /\
+  from_proto (mkWire [[B 1]; [B 1]; [B 1; B 2; B 3]] (repeat zero_byte 32) []) = WErr.
 Proof. vm_compute. repeat split; reflexivity. Qed.
